@@ -8,7 +8,7 @@ CLAIMED = {
    technique="proptest program generation + metamorphic layout relation (tree, verdict and behaviour equality)",
    design="6/C09"),
  "C12": dict(
-   text="Four searches: (d) an exhaustive fault x position x context matrix (74 ill-typed expressions x every expression position of their type, 28 ill-typed statements, 16 statement contexts) where a fault rejected at the reference position must be rejected with the same error family inside the faulty statement wherever it is placed; and three generated-input searches: (a) checker-accepted programs of the wide generator, two thirds with wrongly typed sub-expressions planted in parentheses / argument lists / subscripts / CASE and PRINT lists and without statements converting external data, must never raise Type mismatch (13) nor a wrong-kind failure at run time; (b) consistent renaming of every user identifier keeps verdict class, output, error code and row; (c) one ill-typing edit (string operand at any expression depth, extra argument, by-reference type, duplicate CONST, NEXT with another counter) of an accepted program must be rejected with the matching error family inside the edited statement.",
+   text="Four searches: (d) an exhaustive fault x position x context matrix (74 ill-typed expressions x every expression position of their type, 28 ill-typed statements, 16 statement contexts) where a fault rejected at the reference position must be rejected with the same error family inside the faulty statement wherever it is placed; and three generated-input searches: (a) checker-accepted programs of the wide generator, two thirds with wrongly typed sub-expressions planted in parentheses / argument lists / subscripts / CASE and PRINT lists and without statements converting external data, must never raise Type mismatch (13) nor a wrong-kind failure at run time; (b) consistent renaming of every user identifier keeps verdict class, output, error code and row; (b2) the DECLARE statements of a generated program, matching or with one changed, stand at the top / after the main code / after the bodies: same verdict everywhere; (c) one ill-typing edit (string operand at any expression depth, extra argument, by-reference type, duplicate CONST, NEXT with another counter) of an accepted program must be rejected with the matching error family inside the edited statement; (c2) an enumerated duplicate-definition matrix (a second DIM of a compact / extended scalar or array in the same scope, or in a SUB / FUNCTION while the main module DIM SHAREs it, with or without a variable of another suffix next to it).",
    note="Trusted: the IR printer's site map; refsem's static typing to pick numeric operands; the family table in the evidence assumptions.",
    technique="proptest program generation + validity oracle (soundness), metamorphic renaming relation, mutation of accepted programs with a rejection oracle",
    design="6/C12"),
@@ -28,7 +28,7 @@ CLAIMED = {
    technique="bounded-exhaustive enumeration + proptest random chains against a reference parser/evaluator",
    design="6/C10"),
  "C11": dict(
-   text="Fault injection: one fault of ten kinds (syntax x4, type mismatch, undefined label, argument count, division by zero, subscript, overflow) replaces a statement chosen anywhere in an accepted generated program rendered under a random layout (case, blanks/tabs, blank and comment lines, colon joins, LF/CRLF/CR); the reported row/column is compared with the printer's site map, and for run-time faults the envelope's call-site rows with the reference semantics' call stack.",
+   text="Fault injection with a position oracle. (1) Matrix: a catalogue of about 330 statements with exactly one diagnostic each (wrong argument count / type for user and built-in procedures in every expression position, by-reference arguments of another type, undefined labels, duplicate definitions, assignment to a CONST, a DECLARE contradicting an earlier DECLARE and the implementation, NEXT naming another variable, type mismatch in every expression position incl. FOR bounds, DIM bounds and constant expressions, undefined TYPE / field, misplaced EXIT / DIM SHARED / RESUME, unterminated strings, unbalanced parentheses, illegal tokens, incomplete statements, stray block closers, run-time faults of every kind) placed in small programs: 10 contexts (own line, blocks, after / before a colon - also behind characters above 127 -, one-line IF branches, SUB, FUNCTION, a FUNCTION -> SUB -> FUNCTION chain) x 6 line-ending conventions x 6 placements. (2) Random search: one fault replaces a statement chosen anywhere in an accepted generated program rendered under a random layout; run-time faults may follow a handled error (RESUME NEXT in place, or inside a SUB left by RESUME label). The reported row / column is compared with the printer's site map and, for run-time faults, the call-site rows with the reference semantics' call stack.",
    note="Trusted: the printer's site map (row/column spans under exactly the rendered layout) and the reference semantics for where run-time faults are raised.",
    technique="proptest program generation + fault injection + differential position oracle (site map)",
    design="6/C11"),
